@@ -369,6 +369,11 @@ namespace OP2Utility::Archive
 		}
 
 		CountValidEntries();
+
+		// Every valid index entry needs a name. GetName looks names up by index.
+		if (m_Count > m_StringTable.size()) {
+			throw std::runtime_error("The string table of volume " + m_ArchiveFilename + " holds fewer names than there are index entries");
+		}
 	}
 
 	void VolFile::ReadStringTable()
